@@ -23,7 +23,7 @@ package dhash
 //@ func sha256Multiple
 //@   property C12
 //@   assumes cap(secondHashPrefix) == len(secondHashPrefix) && cap(deriveKeyPrefix) == len(deriveKeyPrefix) && cap(noncePrefix) == len(noncePrefix)
-//@   det
+//@   pure
 //@   ensures-assumed content(result) == bcat(content(dest), sha(catAll(payloads)))
 //@   ensures-assumed len(result) == len(dest) + 32
 //@   ensures dest == nil ==> isfresh(result)
@@ -31,7 +31,7 @@ package dhash
 //@ func SHA256
 //@   property C12
 //@   assumes cap(secondHashPrefix) == len(secondHashPrefix) && cap(deriveKeyPrefix) == len(deriveKeyPrefix) && cap(noncePrefix) == len(noncePrefix)
-//@   det
+//@   pure
 //@   ensures len(result) == len(dest) + 32
 //@   ensures content(result) == bcat(content(dest), sha(content(payload)))
 //@   ensures dest == nil ==> isfresh(result)
@@ -39,12 +39,12 @@ package dhash
 //@ func SecondMultihash
 //@   property C12
 //@   assumes cap(secondHashPrefix) == len(secondHashPrefix) && cap(deriveKeyPrefix) == len(deriveKeyPrefix) && cap(noncePrefix) == len(noncePrefix)
-//@   det
+//@   pure
 
 //@ func deriveKey
 //@   property C12
 //@   assumes cap(secondHashPrefix) == len(secondHashPrefix) && cap(deriveKeyPrefix) == len(deriveKeyPrefix) && cap(noncePrefix) == len(noncePrefix)
-//@   det
+//@   pure
 //@   ensures len(result) == 32
 //@   ensures isfresh(result)
 //@   ensures content(result) == keyOf(content(passphrase))
@@ -54,7 +54,7 @@ package dhash
 //@ func DecryptAES
 //@   property C12
 //@   assumes cap(secondHashPrefix) == len(secondHashPrefix) && cap(deriveKeyPrefix) == len(deriveKeyPrefix) && cap(noncePrefix) == len(noncePrefix)
-//@   det
+//@   pure
 //@   ensures len(nonce) != 12 ==> result1 != nil
 //@   ensures result1 == nil <==> (len(nonce) == 12 && aeadOpenOK(keyOf(content(passphrase)), content(nonce), content(payload)))
 //@   ensures result1 == nil ==> content(result0) == aeadOpen(keyOf(content(passphrase)), content(nonce), content(payload))
@@ -63,7 +63,7 @@ package dhash
 //@ func EncryptAES
 //@   property C12
 //@   assumes cap(secondHashPrefix) == len(secondHashPrefix) && cap(deriveKeyPrefix) == len(deriveKeyPrefix) && cap(noncePrefix) == len(noncePrefix)
-//@   det
+//@   pure
 //@   ensures result2 == nil
 //@   ensures len(result0) == 12
 //@   ensures isfresh(result0) && isfresh(result1)
@@ -73,7 +73,7 @@ package dhash
 //@ func DecryptValueKey
 //@   property C12
 //@   assumes cap(secondHashPrefix) == len(secondHashPrefix) && cap(deriveKeyPrefix) == len(deriveKeyPrefix) && cap(noncePrefix) == len(noncePrefix)
-//@   det
+//@   pure
 //@   ensures len(valKey) < 12 ==> result1 != nil
 //@   ensures result1 != nil ==> result0 == nil
 //@   ensures result1 == nil <==> (len(valKey) >= 12 && aeadOpenOK(keyOf(content(mh)), bsub(content(valKey), 0, 12), bsub(content(valKey), 12, len(valKey))))
@@ -82,14 +82,14 @@ package dhash
 //@ func EncryptValueKey
 //@   property C12
 //@   assumes cap(secondHashPrefix) == len(secondHashPrefix) && cap(deriveKeyPrefix) == len(deriveKeyPrefix) && cap(noncePrefix) == len(noncePrefix)
-//@   det
+//@   pure
 //@   ensures result1 == nil
 //@   ensures content(result0) == bcat(nonceOf(content(valKey), len(valKey), content(mh)), aeadSeal(keyOf(content(mh)), nonceOf(content(valKey), len(valKey), content(mh)), content(valKey)))
 
 //@ func DecryptMetadata
 //@   property C12
 //@   assumes cap(secondHashPrefix) == len(secondHashPrefix) && cap(deriveKeyPrefix) == len(deriveKeyPrefix) && cap(noncePrefix) == len(noncePrefix)
-//@   det
+//@   pure
 //@   ensures len(encMetadata) <= 12 ==> result1 != nil
 //@   ensures result1 != nil ==> result0 == nil
 //@   ensures result1 == nil <==> (len(encMetadata) > 12 && aeadOpenOK(keyOf(content(valueKey)), bsub(content(encMetadata), 0, 12), bsub(content(encMetadata), 12, len(encMetadata))))
@@ -98,7 +98,7 @@ package dhash
 //@ func EncryptMetadata
 //@   property C12
 //@   assumes cap(secondHashPrefix) == len(secondHashPrefix) && cap(deriveKeyPrefix) == len(deriveKeyPrefix) && cap(noncePrefix) == len(noncePrefix)
-//@   det
+//@   pure
 //@   ensures result1 == nil
 //@   ensures content(result0) == bcat(nonceOf(content(metadata), len(metadata), content(valueKey)), aeadSeal(keyOf(content(valueKey)), nonceOf(content(metadata), len(metadata), content(valueKey)), content(metadata)))
 
